@@ -299,6 +299,8 @@ FORCED = {  # re-confirmation of the open findings on every run (witness inputs,
             w_prior=5.0, u_prior=0.0, mode="u-supplied", seed=91671242, T=6, D_given=6,
             u=[[0.33979438616219865, 0.9501178397724447], [0.0774682636893171, 0.27823397487356566], [0.1428277923883408, 0.5215602260905541],
                [0.5061668139043344, 0.12910091907140214], [0.9207922668067348, 0.55349967059448], [0.8658741823229579, 0.23323007832615733]]),
+    # (found by the thorough tier, seed 1: two affinity entries fall 1e-8 -> 1e-15 -> 1e-30 -> 0.0, the tenth update is 0 * inf)
+    11: dict(N=5, K=3, edges=[(0, 3), (1, 4), (2, 4)], assortative=False, w_prior=0.0, u_prior=1.0, mode="both-inferred", seed=1513829515, T=10),
 }
 
 
@@ -383,10 +385,18 @@ def fit_case(ctx, rng, idx):
         if trace["bad"]:
             return
         if not np.all(np.isfinite(val)):
-            # mechanism classifier: did a community's membership column underflow to 0 just before?
+            # mechanism classifier: did a community's membership column underflow to 0 just before?  or, with the memberships
+            # intact, an entry of the (full) affinity matrix?
             cur = self.u
             under = np.all(np.isfinite(cur)) and float(np.abs(cur).max(axis=0).min()) < 1e-100
-            trace["bad"] = "non-finite-parameters:after-community-underflow" if under else f"{name}-iterate-not-finite"
+            w_under = False
+            try:
+                pw = np.asarray(self.w, dtype=float)
+                w_under = (not assortative) and np.all(np.isfinite(pw)) and np.all(np.isfinite(cur)) and bool(np.any(np.abs(pw) < 1e-100))
+            except Exception:
+                pass
+            trace["bad"] = ("non-finite-parameters:after-community-underflow" if under
+                            else "non-finite-parameters:after-affinity-entry-underflow" if w_under else f"{name}-iterate-not-finite")
         elif np.any(val < -1e-12):
             trace["bad"] = f"{name}-iterate-negative"
         elif name == "w":
@@ -444,8 +454,11 @@ def fit_case(ctx, rng, idx):
             finite = bool(np.all(np.isfinite(m.u)) and np.all(np.isfinite(m.w)))
             if not finite:
                 prev = seq[-1][1] if seq else None
+                prev_w = seq[-1][2] if seq else None
                 under = prev is not None and np.all(np.isfinite(prev)) and float(np.abs(prev).max(axis=0).min()) < 1e-100
-                mech = "C15:fit:non-finite-parameters:after-community-underflow" if under else "C15:fit:parameters-not-finite"
+                w_under = (not under) and (not assortative) and prev_w is not None and np.all(np.isfinite(prev_w)) and bool(np.any(np.abs(prev_w) < 1e-100))
+                mech = ("C15:fit:non-finite-parameters:after-community-underflow" if under
+                        else "C15:fit:non-finite-parameters:after-affinity-entry-underflow" if w_under else "C15:fit:parameters-not-finite")
                 ctx.check("C15:fit-iterate", False, mech, lambda: wit((n_iter, m.u.tolist(), m.w.tolist())))
                 break
             ctx.check("C15:fit-iterate", bool(np.all(m.u >= -1e-12) and np.all(m.w >= -1e-12)), "C15:fit:parameters-negative", lambda: wit((n_iter, m.u.tolist(), m.w.tolist())))
